@@ -1,5 +1,6 @@
 SPECIFICATION Spec
-CONSTANTS NP = 1 MaxRuns = 3 MaxTouch = 2
+CONSTANTS MaxRuns = 3 MaxTouch = 2
+  Scens <- ScenPlain1
   Settings <- SettingsDefault
   CreatedSetsChanged = TRUE
   KeepHistory = TRUE
